@@ -596,6 +596,17 @@ func genWithProfile(prop string, seed uint64, idx int, r *Rng, p Profile) *Scena
 	if nYears == 1 && sc.End.Zeit() < sc.Start.Zeit()+200 {
 		sc.End = sc.Start.AddDays(200 + r.Intn(150))
 	}
+	// 4 % of the C04 / C05 cases: a window that starts in the last days of December and ends in the first days of January
+	// (every estimate of "how many calendar years does the window touch" from its length in days is one short here)
+	if rj := NewRng(mix(mix(seed, uint64(idx)), 1231231)); (prop == "C04" || prop == "C05") && rj.Bool(0.04) && nYears >= 2 {
+		sc.Start = Date{startYear, 12, rj.Range(25, 31)}
+		sc.End = Date{endYear + 1, 1, rj.Range(2, 7)}
+		sc.AnnualDay, sc.AnnualMonth = 1, 1
+		if rj.Bool(0.5) && sc.End.D > 3 {
+			sc.AnnualDay = rj.Range(1, sc.End.D-1)
+		}
+		endYear++
+	}
 	// keep the annual output date strictly before the end date inside the end year (else the model
 	// extends the run: known finding end_date_extension); a few cases keep the extension on purpose.
 	annualInEndYear := Date{sc.End.Y, sc.AnnualMonth, sc.AnnualDay}
@@ -1710,6 +1721,17 @@ func genOutputConfigs(sc *Scenario, r *Rng, p Profile) {
 		for i := range cols {
 			if r.Bool(0.4) {
 				cols[i].Align = aligns[r.Intn(len(aligns))]
+			}
+		}
+		// a fifth of the configurations: one to three numeric columns are laid out too narrow for their values (width 1-4), so
+		// that the value overflows its cell on most days - in every alignment and also in columns that are not the last one
+		if rn := NewRng(mix(mix(sc.Seed, uint64(sc.Index)), 5050)); rn.Bool(0.2) {
+			for t, m := 0, rn.Range(1, 3); t < m; t++ {
+				i := rn.Intn(len(cols))
+				if cols[i].Format != "%s" && cols[i].Format != "%v" {
+					cols[i].Width = rn.Range(1, 4)
+					cols[i].Align = aligns[rn.Intn(len(aligns))]
+				}
 			}
 		}
 		sc.DailyCols = cols
